@@ -21,7 +21,7 @@ func init() {
 		Rule: "tokens.Token values handed to BasicPrivateIssuer.Verify / BatchedPrivateIssuer.Verify: honestly issued tokens, every single-bit flip of every field of each, authenticator truncated/extended/empty, every token against every other key and against the issuer of the other type, " +
 			"type changed with the authenticator recomputed by the reference (must be accepted), hostile field lengths, shifted field boundaries. Oracle: Verify returns nil iff authenticator == circl FullEvaluate(key, be16(type)||nonce||context||keyid) computed by the harness from the fields as carried. " +
 			"distinct_nontrivial = distinct (issuer type, case class, field, bit or length) keys",
-		Floors:      []string{"accepted_agree", "rejected_agree", "bitflip_rejected", "other_key_rejected", "other_type_rejected", "recomputed_accepted", "related_derivation_rejected"},
+		Floors:      []string{"accepted_agree", "rejected_agree", "bitflip_rejected", "other_key_rejected", "other_type_rejected", "recomputed_accepted", "related_derivation_rejected", "issuer_consistent_after_key_object_reuse"},
 		Assumptions: []string{"circl VOPRF FullEvaluate is the trusted reference"},
 		Run:         runC10,
 	})
@@ -108,6 +108,96 @@ func runC10(c *core.Ctx) {
 		iss5 = append(iss5, &c10Issuer{fmt.Sprintf("type5#%d", i), oprf.SuiteRistretto255, k5, i5.Verify, 5, 64, [4][]byte{}})
 	}
 	all := append(append([]*c10Issuer{}, iss1...), iss5...)
+
+	// the caller REUSES the key object it built an issuer from (loads another key into it). What the issuer then does is
+	// not laid down by any statement (type 1 works on a snapshot, type 5 on the caller's object, whose cached public key
+	// circl does not refresh: an honest run through such a type-5 issuer does not complete, on the unchanged tree too).
+	// Judged is only this: IF an honest run through that issuer completes, the issuer's own Verify accepts the token it has
+	// just issued, and the token is the VOPRF evaluation under the key the issuer advertises.
+	for rep := 0; rep < 4; rep++ {
+		if !c.Next() {
+			continue
+		}
+		r := c.CaseRng()
+		for _, suite := range []oprf.Suite{oprf.SuiteP384, oprf.SuiteRistretto255} {
+			ka, kb := VOPRFKey(suite, r.Bytes(32)), VOPRFKey(suite, r.Bytes(32))
+			obj := FreshVOPRFKey(suite, ka)
+			kbBytes, _ := kb.MarshalBinary()
+			chal, nonce := r.Bytes(12), r.Bytes(32)
+			var tok tokens.Token
+			var adv []byte
+			var verr error
+			completed := false
+			pan, pv, where := core.Guard(func() {
+				if suite == oprf.SuiteP384 {
+					is := type1.NewBasicPrivateIssuer(obj)
+					if rep%2 == 1 {
+						is.TokenKeyID()
+					}
+					if obj.UnmarshalBinary(suite, kbBytes) != nil {
+						return
+					}
+					adv, _ = is.TokenKey().MarshalBinary()
+					st, err := type1.NewBasicPrivateClient().CreateTokenRequest(chal, nonce, is.TokenKeyID(), is.TokenKey())
+					if err != nil {
+						return
+					}
+					resp, err := is.Evaluate(st.Request())
+					if err != nil {
+						return
+					}
+					if tok, err = st.FinalizeToken(resp); err != nil {
+						return
+					}
+					completed, verr = true, is.Verify(tok)
+				} else {
+					is := type5.NewBatchedPrivateIssuer(obj)
+					if rep%2 == 1 {
+						is.TokenKeyID()
+					}
+					if obj.UnmarshalBinary(suite, kbBytes) != nil {
+						return
+					}
+					adv, _ = is.TokenKey().MarshalBinary()
+					st, err := type5.NewBatchedPrivateClient().CreateTokenRequest(chal, [][]byte{nonce}, is.TokenKeyID(), is.TokenKey())
+					if err != nil {
+						return
+					}
+					resp, err := is.Evaluate(st.Request())
+					if err != nil {
+						return
+					}
+					toks, err := st.FinalizeTokens(resp)
+					if err != nil || len(toks) != 1 {
+						return
+					}
+					tok = toks[0]
+					completed, verr = true, is.Verify(tok)
+				}
+			})
+			c.Eval(1)
+			d := map[string]any{"suite": suite.Identifier(), "issuer_used_before_the_reuse": rep%2 == 1}
+			if pan {
+				c.Violation("verify:key-object-reused:panic:"+where, "panic after the caller reused its key object: "+pv, d)
+				continue
+			}
+			if !completed {
+				c.Class("info_run_does_not_complete_after_key_object_reuse")
+				continue
+			}
+			paBytes, _ := ka.Public().MarshalBinary()
+			cur := kb
+			if bytes.Equal(adv, paBytes) {
+				cur = ka
+			}
+			want := RefVOPRF(suite, cur, tok.AuthenticatorInput())
+			if verr != nil || !bytes.Equal(want, tok.Authenticator) {
+				c.Violation("verify:key-object-reused:own-token-rejected", fmt.Sprintf("after the caller loaded another key into the object it had built the issuer from, an honest run through the issuer completes, but the issuer's Verify rejects the token it has just issued, or the token is not the evaluation under the advertised key (Verify: %v)", verr), d)
+				continue
+			}
+			c.Class("issuer_consistent_after_key_object_reuse")
+		}
+	}
 
 	// honest tokens: made by the reference (nonce, context, keyid as the client would)
 	mk := func(is *c10Issuer, r *core.Rand) tokens.Token {
